@@ -53,7 +53,9 @@ theorem multi_nums (s : St) (fsz rl m : Int)
     (c : MultiCtx) (hc1 : c.encFs = encFrameSize s fsz) (hc2 : c.nbFrames = fsz / c.encFs)
     (hc3 : c.maxLenSum = c.nbFrames + rl - (if c.nbFrames = 2 then 3 else 2 + (c.nbFrames - 1) * 2)) :
     2 ≤ c.nbFrames ∧ c.nbFrames ≤ 6 ∧ 5 ≤ cmQ s c ∧ cmQ s c ≤ 1276 ∧ c.nbFrames * cmQ s c ≤ c.maxLenSum ∧
-    (s.fs / c.encFs = 50 ∨ (s.mode = MODE_SILK_ONLY ∧ c.nbFrames = 2 ∧ (s.fs / c.encFs = 25 ∨ s.fs / c.encFs = 16))) := by
+    (s.fs / c.encFs = 50 ∨ (s.mode = MODE_SILK_ONLY ∧ c.nbFrames = 2 ∧ (s.fs / c.encFs = 25 ∨ s.fs / c.encFs = 16))) ∧
+    c.nbFrames * c.encFs = fsz ∧
+    (c.encFs = 8 * (s.fs / 400) ∨ (s.mode = MODE_SILK_ONLY ∧ (c.encFs = 16 * (s.fs / 400) ∨ c.encFs = 24 * (s.fs / 400)))) := by
   have hlong : s.fs / 50 < fsz := by
     unfold isMulti at hmulti
     simp only [decide_eq_true_eq] at hmulti
@@ -83,6 +85,8 @@ structure MultiPre (s0 : St) (c : MultiCtx) : Prop where
   fit : c.nbFrames * cmQ s0 c ≤ c.maxLenSum
   rate : s0.fs / c.encFs = 50 ∨
          (s0.mode = MODE_SILK_ONLY ∧ c.nbFrames = 2 ∧ (s0.fs / c.encFs = 25 ∨ s0.fs / c.encFs = 16))
+  enc : c.encFs = 8 * (s0.fs / 400) ∨
+        (s0.mode = MODE_SILK_ONLY ∧ (c.encFs = 16 * (s0.fs / 400) ∨ c.encFs = 24 * (s0.fs / 400)))
 
 /-- Loop invariant after `i` sub-frames (when nothing failed and all contracts held). -/
 structure Good (s0 : St) (c : MultiCtx) (i : Nat) (a : MultiAcc) : Prop where
@@ -97,7 +101,9 @@ structure Good (s0 : St) (c : MultiCtx) (i : Nat) (a : MultiAcc) : Prop where
   tot : a.totSize ≤ i * cmQ s0 c
   sum : (sumN a.lens : Int) + i ≤ a.totSize
   cfg0 : i = 0 → a.cfg0 = none
-  cfgS : 0 < i → ∃ t, a.cfg0 = some t ∧ Framing.samplesPerFrame t 8000 = spf8k (s0.fs / c.encFs)
+  cfgS : 0 < i → ∃ t bw, a.cfg0 = some t ∧ t = genToc s0.mode (s0.fs / c.encFs) bw s0.streamChannels ∧
+           (s0.mode ≠ MODE_SILK_ONLY → bw = s0.bandwidth) ∧
+           (s0.mode = MODE_SILK_ONLY → bw = BW_NB ∨ bw = BW_MB ∨ bw = BW_WB)
 
 def Inv (s0 : St) (c : MultiCtx) (i : Nat) (a : MultiAcc) : Prop :=
   match a.fail with
@@ -158,12 +164,18 @@ theorem multiStep_inv (s0 : St) (c : MultiCtx) (d : Decided) (isSil : Int) (i : 
       obtain ⟨p1, p2, p3, p4, p5, p6, p7, p8, p9⟩ := hpost
       rw [if_neg (by rw [p1]; simp), if_neg (by omega)]
       -- the ToC of this sub-frame announces the coded duration
-      have hspf : Framing.samplesPerFrame r.toc 8000 = spf8k (s0.fs / c.encFs) := by
+      have htoc : ∃ bw, r.toc = genToc s0.mode (s0.fs / c.encFs) bw s0.streamChannels ∧
+          (s0.mode ≠ MODE_SILK_ONLY → bw = s0.bandwidth) ∧
+          (s0.mode = MODE_SILK_ONLY → bw = BW_NB ∨ bw = BW_MB ∨ bw = BW_WB) := by
         obtain ⟨bw, ht, hb1, hb2⟩ := p8
-        rw [ht, hfsz, f3, g.fs]
-        apply genToc_spf8k
-        rw [f1, g.mode] at hb1 hb2 ⊢
+        rw [hfsz, f3, g.fs, f1, g.mode, f6, g.streamChannels] at ht
+        rw [f1, g.mode] at hb1 hb2
         rw [f2, g.bandwidth] at hb1
+        exact ⟨bw, ht, hb1, hb2⟩
+      have hspf : Framing.samplesPerFrame r.toc 8000 = spf8k (s0.fs / c.encFs) := by
+        obtain ⟨bw, ht, hb1, hb2⟩ := htoc
+        rw [ht]
+        apply genToc_spf8k
         have hmode := hp.mode
         unfold ModeOk at hmode
         rcases hmode with hm | hm | hm
@@ -199,7 +211,7 @@ theorem multiStep_inv (s0 : St) (c : MultiCtx) (d : Decided) (isSil : Int) (i : 
           simp only [Bool.false_eq_true, if_false, List.length_cons, List.length_nil, hspf]
           rw [if_neg (by simp), if_neg (by simp at hnsp ⊢; omega), if_neg (by simp; omega)]
           exact ⟨rfl, by simp⟩
-        · obtain ⟨t, ht, hts'⟩ := g.cfgS (by omega)
+        · obtain ⟨t, _, ht, _, _, _⟩ := g.cfgS (by omega)
           rw [ht] at hts ⊢
           unfold tocStable at hts
           simp only [Bool.or_eq_true, decide_eq_true_eq] at hts
@@ -242,7 +254,9 @@ theorem multiStep_inv (s0 : St) (c : MultiCtx) (d : Decided) (isSil : Int) (i : 
             · have := p7 hv hd'; omega
         push_cast; omega
       · intro h0; omega
-      · intro _; exact ⟨r.toc, hcat.2, hspf⟩
+      · intro _
+        obtain ⟨bw, ht, hb1, hb2⟩ := htoc
+        exact ⟨r.toc, bw, hcat.2, ht, hb1, hb2⟩
     · have hokf : (a.ok && frameOk s fi fo && tocStable a.cfg0 (frameNative s fi fo)) = false := by
         simpa using hok
       rw [hokf]
@@ -396,7 +410,7 @@ theorem encodeNative_post (s : St) (fuzz : Bool) (fsz out : Int) (o : NatOr)
   obtain ⟨hf0, _⟩ := legal_le s.fs fsz hfs0 hlg
   generalize hbdef : sizeBudget (analysisUpd s o) fsz out = b at *
   generalize hs1 : budgetSt s o fsz out = s1 at *
-  obtain ⟨hsame, hmode, hbwd, hwS, hwH⟩ := decide'_spec s1 fuzz o fsz b.maxDataBytes hset1 hbw1
+  obtain ⟨hsame, hmode, hbwd, hwS, hwH, hshort⟩ := decide'_spec s1 fuzz o fsz b.maxDataBytes hset1 hbw1
   have hcfg := hsame.cfg
   generalize hd : decide' s1 fuzz o fsz b.maxDataBytes = d at *
   have hdfs : d.st.fs = s.fs := by rw [hcfg.fs, hfs1]
@@ -438,9 +452,9 @@ theorem encodeNative_post (s : St) (fuzz : Bool) (fsz out : Int) (o : NatOr)
   have hnums := multi_nums d.st fsz (multiCtx d.st fsz out b.cbr).repacketizeLen b.maxDataBytes
     (by rw [hdfs]; exact hfs5) (by rw [hdfs]; exact hlg) hmu hm_rl (by rw [hdfs]; exact hg3'.1)
     (by rw [hdbr]; exact hg3'.2) (multiCtx d.st fsz out b.cbr) rfl rfl rfl
-  obtain ⟨n1, n2, n3, n4, n5, n6⟩ := hnums
+  obtain ⟨n1, n2, n3, n4, n5, n6, n7, n8⟩ := hnums
   have hpre : MultiPre d.st (multiCtx d.st fsz out b.cbr) := by
-    refine ⟨hmode, ?_, ?_, hbwd, ⟨n1, n2⟩, ⟨by omega, n4⟩, n5, n6⟩
+    refine ⟨hmode, ?_, ?_, hbwd, ⟨n1, n2⟩, ⟨by omega, n4⟩, n5, n6, n8⟩
     · intro h
       have := hwS h
       unfold BwOk at hbwd
